@@ -107,6 +107,10 @@ def _run_task(args):
         if key in seen: continue
         seen.add(key)
         ok, desc = sx_replay(h, v['model'], v['choices'])
+        if not ok and v.get('path_model') is not None:
+            merged = dict(v['model']); merged.update(v['path_model'])
+            ok2, desc2 = sx_replay(h, merged, v['choices'])
+            if ok2: ok, desc, v = ok2, desc2, dict(v, model=merged)
         res['violations'].append(dict(what=v['what'], signature=sig, model=_jsonable(v['model']),
                                       choices=v['choices'], info=_jsonable(v.get('info',{})),
                                       replayed=ok, replay_desc=desc))
